@@ -5,6 +5,7 @@ package harness
 import (
 	"fmt"
 	"math"
+	"reflect"
 	"sort"
 	"testing"
 
@@ -55,19 +56,34 @@ func c09Gen(rt *rapid.T) c09Case {
 	switch c.op {
 	case "ArgMax":
 		// data with many ties (small value set), sometimes NaNs for floats
-		vals := make([]float64, n)
-		for i := range vals {
-			vals[i] = float64(rapid.IntRange(0, 3).Draw(rt, "v"))
+		vals := drawMany(n, func() float64 {
+			v := float64(rapid.IntRange(0, 3).Draw(rt, "v"))
 			if isFloat(dt) && rapid.IntRange(0, 19).Draw(rt, "nan") == 0 {
-				vals[i] = math.NaN()
+				v = math.NaN()
 			}
 			if !isInt(dt) || !(dt == tensor.Uint32 || dt == tensor.Uint64) {
 				if rapid.IntRange(0, 5).Draw(rt, "negate") == 0 {
-					vals[i] = -vals[i]
+					v = -v
 				}
 			}
-		}
+			return v
+		})
 		c.x = mkT(shape, backingOf64(dt, vals))
+		if (dt == tensor.Int64 || dt == tensor.Uint64) && rapid.IntRange(0, 3).Draw(rt, "bigInts") == 0 {
+			// values that differ only below the precision of a float64
+			base := rapid.SampledFrom([]int64{1 << 53, 1<<62 + 1<<20, math.MaxInt64 - 8}).Draw(rt, "bigBase")
+			s := reflect.MakeSlice(reflect.SliceOf(dt.Type), n, n)
+			for i := 0; i < n; i++ {
+				v := base + int64(rapid.IntRange(0, 3).Draw(rt, "bigV"))
+				if dt == tensor.Int64 {
+					s.Index(i).SetInt(v)
+				} else {
+					s.Index(i).SetUint(uint64(v))
+				}
+			}
+			c.x = mkT(shape, s.Interface())
+			c.feature = "ints>2^53"
+		}
 		axis := 0
 		if rapid.IntRange(0, 4).Draw(rt, "axisAbsent") != 0 {
 			axis = rapid.IntRange(0, r-1).Draw(rt, "axis")
@@ -130,22 +146,20 @@ func c09Gen(rt *rapid.T) c09Case {
 		c.noAttrs = len(attrs) == 0
 	default: // Softmax, LogSoftmax
 		// values across the whole finite range; rows that differ wildly from each other
-		vals := make([]float64, n)
 		scaleKind := rapid.IntRange(0, 3).Draw(rt, "scaleKind")
-		for i := range vals {
+		vals := drawMany(n, func() float64 {
 			switch scaleKind {
 			case 0:
-				vals[i] = float64(rapid.IntRange(-80, 80).Draw(rt, "v")) / 8
+				return float64(rapid.IntRange(-80, 80).Draw(rt, "v")) / 8
 			case 1:
-				vals[i] = float64(rapid.IntRange(-2000, 2000).Draw(rt, "v"))
-			default:
-				v := genFloat(true).Draw(rt, "v")
-				if math.IsNaN(v) || math.IsInf(v, 0) {
-					v = 0
-				}
-				vals[i] = v
+				return float64(rapid.IntRange(-2000, 2000).Draw(rt, "v"))
 			}
-		}
+			v := genFloat(true).Draw(rt, "v")
+			if math.IsNaN(v) || math.IsInf(v, 0) {
+				v = 0
+			}
+			return v
+		})
 		if dt == tensor.Float32 {
 			for i, v := range vals {
 				if math.Abs(v) > math.MaxFloat32 {
@@ -253,6 +267,17 @@ func c09JudgeInner(c c09Case, res opResult) string {
 		}
 		g := elems(out)
 		v := ""
+		xe := elems(c.x)
+		greater := func(i, j int) bool { // exact for 64-bit integers
+			a, b := xe.Index(i), xe.Index(j)
+			switch {
+			case a.CanInt():
+				return a.Int() > b.Int()
+			case a.CanUint():
+				return a.Uint() > b.Uint()
+			}
+			return a.Float() > b.Float()
+		}
 		slicesAlong(shape, c.axes[0], func(no int, offs []int) {
 			if v != "" {
 				return
@@ -264,7 +289,7 @@ func c09JudgeInner(c c09Case, res opResult) string {
 				if math.IsNaN(x[o]) {
 					hasNaN = true
 				}
-				if x[o] > x[offs[best]] {
+				if greater(o, offs[best]) {
 					best = k
 				}
 			}
